@@ -734,3 +734,117 @@ theorem athrow_treq (I : Obj ι) (cs : CS I.σ) (e : Exc) (he : e ≠ .genExit) 
       cssimp [h, athrowView])
 
 end Asynkit.Proto
+
+namespace Asynkit.Proto
+variable {ι : Type}
+
+/-- `cs.aclose()` on a CoroStart holding a suspended coroutine = `close()` of a native await
+    suspended on it, as long as the coroutine does not yield in response to GeneratorExit
+    (then aclose keeps awaiting — "async cleanup" — where close() reports "ignored GeneratorExit").
+    `hcl`/`hns` say that `I` is a CPython object at `s` (close = throw GeneratorExit + gen_close
+    post-processing; PEP 479). -/
+theorem aclose_step_eq (I : Obj ι) (s : I.σ) (y0 : Y)
+    (hcl : I.close s = envClosed (I.throw s .genExit))
+    (hny : ∀ y, (I.throw s .genExit).2 ≠ .yield y)
+    (hns : ∀ w, (I.throw s .genExit).2 ≠ .raise (.stopIter w)) :
+    ((coroStartAcloseO I ⟨s, some (.pending y0)⟩).step (coroStartAcloseO I ⟨s, some (.pending y0)⟩).init
+        (.send 0)).2 = ((nativeAwaitO I).step (.susp s) .close).2 ∧
+    (coroStartAcloseO I ⟨s, some (.pending y0)⟩).view
+      ((coroStartAcloseO I ⟨s, some (.pending y0)⟩).step (coroStartAcloseO I ⟨s, some (.pending y0)⟩).init
+        (.send 0)).1 = (nativeAwaitO I).view ((nativeAwaitO I).step (.susp s) .close).1 := by
+  rcases h : I.throw s .genExit with ⟨s', o⟩
+  rw [h] at hcl hny hns
+  rcases o with y | v | e
+  · exact absurd rfl (hny y)
+  · simp [envClosed] at hcl
+    simp [Obj.step, coroStartAcloseO, coroStartAcloseB, coroStartAthrowO, coroStartAthrowB, athrowView]
+    cssimp [h, hcl]
+  · cases e <;> first | exact absurd rfl (hns _) | (
+      simp [envClosed] at hcl
+      simp [Obj.step, coroStartAcloseO, coroStartAcloseB, coroStartAthrowO, coroStartAthrowB, athrowView]
+      cssimp [h, hcl])
+
+end Asynkit.Proto
+
+namespace Asynkit.Proto
+variable {ι : Type}
+
+/-! ### stacks of wrappers -/
+
+/-- a wrapper kind is transparent when, around any inner object whose first step does not raise
+    OOBData, it is equivalent (once started) to a native await of that object -/
+def Transparent (w : Obj ι → Obj ι) : Prop := ∀ I, NoOOBFirst I → Equiv0 (w I) (nativeAwaitO I)
+
+/-- same, for every first drive (also throw/close into the not yet started wrapper) -/
+def TransparentFull (w : Obj ι → Obj ι) : Prop :=
+  ∀ I, NoOOBFirst I → Equiv (w I) (nativeAwaitO I) ∧ (w I).view (w I).init = I.view I.init
+
+/-- head = outermost wrapper -/
+def stack (ws : List (Obj ι → Obj ι)) (I : Obj ι) : Obj ι := ws.foldr (fun w acc => w acc) I
+
+def nativeStack : Nat → Obj ι → Obj ι
+  | 0, I => I
+  | n + 1, I => nativeAwaitO (nativeStack n I)
+
+theorem noOOB_nativeAwait (I : Obj ι) (h : NoOOBFirst I) : NoOOBFirst (nativeAwaitO I) := by
+  intro d
+  have := h
+  unfold NoOOBFirst at this
+  rcases hh : I.send I.init 0 with ⟨s', o⟩
+  rw [hh] at this
+  rcases o with y | v | e
+  · isimp [hh]
+  · isimp [hh]
+  · cases e <;> first | exact absurd rfl (this _) | isimp [hh]
+
+theorem noOOB_of_equiv0 {J I : Obj ι} (h : Equiv0 J I) (hI : NoOOBFirst I) : NoOOBFirst J := by
+  intro d hd
+  exact hI d (h.first.1 ▸ hd)
+
+theorem noOOB_nativeStack (I : Obj ι) (h : NoOOBFirst I) : ∀ n, NoOOBFirst (nativeStack n I)
+  | 0 => h
+  | n + 1 => noOOB_nativeAwait _ (noOOB_nativeStack I h n)
+
+theorem stack_equiv0_nativeStack (ws : List (Obj ι → Obj ι)) (hw : ∀ w ∈ ws, Transparent w)
+    (I : Obj ι) (hI : NoOOBFirst I) : Equiv0 (stack ws I) (nativeStack ws.length I) := by
+  induction ws with
+  | nil => intro ds; rfl
+  | cons w ws ih =>
+    have ih' := ih (fun w' h' => hw w' (List.mem_cons_of_mem _ h'))
+    have hno : NoOOBFirst (stack ws I) := noOOB_of_equiv0 ih' (noOOB_nativeStack I hI _)
+    exact (hw w (List.mem_cons_self) (stack ws I) hno).trans (nativeAwait_congr0 ih')
+
+theorem nativeStack_view_init (I : Obj ι) : ∀ n, (nativeStack n I).view (nativeStack n I).init = I.view I.init
+  | 0 => rfl
+  | n + 1 => by
+    show (nativeStack n I).view (nativeStack n I).init = _
+    exact nativeStack_view_init I n
+
+/-- n+1 nested native awaits are one native await -/
+theorem nativeStack_collapse (I : Obj ι) : ∀ n, Equiv (nativeStack (n + 1) I) (nativeAwaitO I)
+  | 0 => TrEq.refl _ _
+  | n + 1 =>
+    TrEq.trans (nativeAwait_congr (nativeStack_collapse I n) (nativeStack_view_init I (n + 1)))
+      (nativeAwait_idem I)
+
+theorem stack_equiv0 (ws : List (Obj ι → Obj ι)) (hne : ws ≠ []) (hw : ∀ w ∈ ws, Transparent w)
+    (I : Obj ι) (hI : NoOOBFirst I) : Equiv0 (stack ws I) (nativeAwaitO I) := by
+  have h := stack_equiv0_nativeStack ws hw I hI
+  cases ws with
+  | nil => exact absurd rfl hne
+  | cons w ws => exact h.trans (nativeStack_collapse I ws.length).toEquiv0
+
+theorem stack_equiv_full (ws : List (Obj ι → Obj ι)) (hw : ∀ w ∈ ws, TransparentFull w)
+    (I : Obj ι) (hI : NoOOBFirst I) :
+    Equiv (stack ws I) (nativeStack ws.length I) ∧
+    (stack ws I).view (stack ws I).init = I.view I.init := by
+  induction ws with
+  | nil => exact ⟨TrEq.refl _ _, rfl⟩
+  | cons w ws ih =>
+    have ih' := ih (fun w' h' => hw w' (List.mem_cons_of_mem _ h'))
+    have hno : NoOOBFirst (stack ws I) := noOOB_of_equiv0 ih'.1.toEquiv0 (noOOB_nativeStack I hI _)
+    have hwI := hw w (List.mem_cons_self) (stack ws I) hno
+    refine ⟨TrEq.trans hwI.1 (nativeAwait_congr ih'.1 ?_), hwI.2.trans ih'.2⟩
+    exact ih'.2.trans (nativeStack_view_init I _).symm
+
+end Asynkit.Proto
